@@ -322,6 +322,38 @@ def run_year_ends(block, ctx):
     ctx.sample(block[0])
 
 
+# -- month seams: two queries a fraction of a second apart across 0h of the 1st of every month ------------------
+
+def check_month_seam(case):
+    fn, target, y, m = case["finder"], case["target"], case["year"], case["month"]
+    per = FINDERS[fn][1]
+    j1 = fast().n(y, m, 1) - 0.5
+    try:
+        r1, _ = call(fn, target, j1 - 1e-6)
+        r2, _ = call(fn, target, j1 + 1e-6)
+    except Exception as ex:
+        return [("finder_exception", "%s(%r) at 0h of %d-%02d-01 raised %r" % (fn, target, y, m, ex), None)]
+    if r2 < r1 - 1e-6:
+        return [("seam_backwards", "%s %r: the query 1e-6 d after 0h of %d-%02d-01 gets JDE %r, the query 1e-6 d "
+                 "before it JDE %r (%.3f periods back)" % (fn, target, y, m, r2, r1, (r1 - r2) / per),
+                 (r1 - r2) / per)]
+    return []
+
+
+def run_month_seams(spec, ctx):
+    fn, target, y0, y1 = spec
+    for y in range(y0, y1):
+        for m in range(2, 13):
+            ctx.evals += 2
+            case = {"finder": fn, "target": target, "year": y, "month": m}
+            for site, msg, dev in check_month_seam(case):
+                ctx.viol(case, msg, dev=dev, site=site)
+    ctx.nt_count += (y1 - y0) * 11
+    ctx.outcome((fn, target))
+    ctx.obs(fn, target, y0)
+    ctx.sample({"finder": fn, "target": target, "year": y0, "month": 3})
+
+
 # -- one Epoch object moved with set() between queries ---------------------------------------------
 
 RE_DATES = [(1990, 6, 1.5), (-1500, 3, 1.0), (3900, 9, 9.0), (2010, 1, 1.25), (1582, 10, 15.0), (100, 2, 29.0)]
@@ -457,7 +489,10 @@ def clauses(tier):
             seg = (jb - ja) / 16
             for k in range(16):
                 every.append((fn, t, ja + k * seg, ja + (k + 1) * seg))
+    ms = [(fn, t, y, min(y + 100, 3999)) for fn, (targets, per) in FINDERS.items() for t in targets
+          for y in range(-1999, 3999, 100)]
     return [
+        Clause("month_seams", ms, run_month_seams, lambda c: [m for _, m, _ in check_month_seam(c)], floor=100000),
         Clause("every_event", every, run_every_event, replay_sweep, floor=100000),
         Clause("year_ends", chunks(ye, 64), run_year_ends, lambda c: [m for _, m, _ in check_year_end(c)],
                floor=10000),
